@@ -327,6 +327,61 @@ example : isBoundary b!"let " b!"foo_bar" b!"n = 1" = false :=
 example : isBoundary b!"let x" b!"foo_bar" b!" = 1" = false :=
   near_miss_exact_left (before := b!"let ") (by decide) (by decide) (Or.inr ⟨_, _, rfl, by decide⟩)
 
+/-- Digit-adjacent near miss, left side: a hit (of any space-free variant) directly preceded by a DIGIT is rejected by
+    `is_boundary`, whatever the hit starts with and whatever surrounds it (`x2foo_bar`, `v10foo_bar_cache`, `load3fooBar`,
+    `id7foo-bar`, `2foo_bar`).  `is_boundary` has no digit rule at all: the only alphanumeric neighbour it accepts is an
+    upper-case letter after a lower-case one. -/
+theorem near_miss_exact_digit_before {before m after : Bytes} {p : UInt8} (hsp : contains m 32 = false)
+    (hp : isDigit p = true) : isBoundary (before ++ [p]) m after = false :=
+  isBoundary_glued_left hsp (by simp only [isAlnum, hp, Bool.or_true])
+    (Or.inl (by cases h : isLower p with | false => rfl | true => exact absurd (lower_not_digit h) (by rw [hp]; decide)))
+
+/-- Digit-adjacent near miss, right side: a hit whose last byte is a digit (term ending in a digit: `foo_v2`) directly
+    followed by any letter or digit is rejected (`foo_v2x`, `fooV2n`, `FOO_V2N`); and a hit followed by a digit is rejected
+    whatever it ends with (`foo_bar2`, `fooBar10`). -/
+theorem near_miss_exact_digit_after {before m after : Bytes} {c : UInt8} (hsp : contains m 32 = false)
+    (hc : isAlnum c = true) (h : isDigit c = true ∨ ∃ l, m.getLast? = some l ∧ isDigit l = true) :
+    isBoundary before m (c :: after) = false := by
+  apply isBoundary_glued_right hsp hc
+  rcases h with h | ⟨l, hl, hd⟩
+  · left
+    cases hu : isUpper c with
+    | false => rfl
+    | true => exact absurd (upper_not_digit hu) (by rw [h]; decide)
+  · right
+    refine ⟨l, hl, ?_⟩
+    cases hlo : isLower l with
+    | false => rfl
+    | true => exact absurd (lower_not_digit hlo) (by rw [hd]; decide)
+
+example : isBoundary b!"x2" b!"foo_bar" b!" = 1" = false :=
+  near_miss_exact_digit_before (before := b!"x") (by decide) (by decide)
+example : isBoundary b!"let " b!"foo_v2" b!"x = 1" = false :=
+  near_miss_exact_digit_after (by decide) (by decide) (Or.inr ⟨_, rfl, by decide⟩)
+
+/-- the tokenizer's digit rules, by kernel evaluation (the general tokenizer lemmas of C18 cover letter-only words; words
+    carrying digits are covered here by evaluation and by the differential check): digit->lower and letter->digit do not
+    start a word, digit->UPPER does -/
+theorem digit_word_rules :
+    parse A b!"x2foo_bar" = [b!"x2foo", b!"bar"] ∧ parse A b!"load3fooBar" = [b!"load3foo", b!"Bar"] ∧
+    parse A b!"foo_bar2x" = [b!"foo", b!"bar2x"] ∧ parse A b!"foo_v2x" = [b!"foo", b!"v2x"] ∧
+    parse A b!"x2FooBar" = [b!"x2", b!"Foo", b!"Bar"] ∧ parse A b!"foo_v2X" = [b!"foo", b!"v2", b!"X"] := by decide +kernel
+
+/-- the whole line matcher on the digit-adjacent near misses (exact, compound and overlap passes together): no match;
+    the last three use the term `foo_v2`, which ends in a digit -/
+theorem near_miss_digit_family_untouched :
+    (∀ t ∈ [b!"x2foo_bar", b!"v10foo_bar_cache", b!"load3fooBar", b!"id7foo-bar", b!"my_x2foo_bar_list", b!"2foo_bar",
+            b!"foo_bar2x", b!"fooBar10", b!"my_foo_bar2_item", b!"let x2foo_bar = foo_bar2;"],
+      findEnhanced A t b!"foo_bar" b!"baz_qux" (variantKeys A b!"foo_bar" libStyles) libStyles = []) ∧
+    (∀ t ∈ [b!"foo_v2x", b!"fooV2n", b!"FOO_V2n", b!"my_foo_v2x_item"],
+      findEnhanced A t b!"foo_v2" b!"baz_qux" (variantKeys A b!"foo_v2" libStyles) libStyles = []) := by decide +kernel
+
+/-- and digit->UPPER is a word start: these contain the word sequence and are rewritten locally -/
+theorem digit_then_upper_is_a_word_start :
+    findCompound A b!"myX2FooBar" b!"foo_bar" b!"baz_qux" libStyles = some ⟨b!"myX2FooBar", b!"myX2BazQux", .camel⟩ ∧
+    findCompound A b!"arm64FooBar" b!"foo_bar" b!"baz_qux" libStyles = some ⟨b!"arm64FooBar", b!"arm64BazQux", .camel⟩ := by
+  decide +kernel
+
 /-- the whole line matcher on the near-miss family of the property text (exact, compound and overlap passes together,
     scanner default styles): no match at all -/
 theorem near_miss_family_untouched :
